@@ -7,7 +7,7 @@ CONSTANTS
   SatSecs = 2001
   Advs <- AdvsFull
   Offs <- OffsFull
-  Weights <- WeightsFull
+  Weights <- WeightsMid
   AllowSat = TRUE
   BumpDen = 2
   InitClkEpochs = {0, 1}
